@@ -142,7 +142,7 @@ func newMachine(t *rapid.T, cfg config) *machine {
 
 	opts := &database.Options{Local: true, Internal: true}
 	if cfg.cache != cacheNone {
-		s.cacheSize = rapid.SampledFrom([]int{1, 2, 3, 5, 64}).Draw(t, "cacheSize")
+		s.cacheSize = rapid.SampledFrom([]int{1, 2, 3, 5, 64, 256, 1024}).Draw(t, "cacheSize")
 		opts.CacheSize = s.cacheSize
 		if s.cacheSize < len(s.pool) {
 			s.evictionLikely = true
